@@ -159,7 +159,8 @@ def run_pos(sh, ctx):
 				w.genomes[a_][id_attr], w.genomes[b_][id_attr] = pair
 				ctx.count('look_alike_identifier_pairs')
 			d = ctx.workdir / f'w{wi}_{id_attr}'
-			w.write_db(d, sig_order=order, id_attr=id_attr, with_extra=True, sig_dtype=dt, interleave_seed=rng.random())
+			two_sets = rng.random() < 0.3
+			w.write_db(d, sig_order=order, id_attr=id_attr, with_extra=True, sig_dtype=dt, interleave_seed=rng.random(), second_genomeset=two_sets)
 			desc = dict(id_attr=id_attr, order=ok, sig_order=order, n=n, n_extra=len(w.extra), file_ids=[str(x) for x in w.last_file_ids][:30], dtype=str(dt))
 			ctx.case(('pos', sh['sub'], wi, id_attr, order), nontrivial=n >= 2, sample=desc if wi == 0 and id_attr in ('key', 'ncbi_id') else None)
 			ctx.count(f'id_attr:{id_attr}'); ctx.count(f'order:{ok}'); ctx.count('with_unrelated_signatures' if w.extra else 'without_unrelated_signatures')
@@ -173,9 +174,23 @@ def run_pos(sh, ctx):
 					ctx.count('failing_loads_interleaved')
 				shutil.rmtree(dbad, ignore_errors=True)
 			try:
-				db = ReferenceDatabase.load_from_dir(d)
+				if two_sets:
+					# the genome file holds a second genome set that annotates the same genomes with its own taxa: the database is then
+					# built through the public constructor for the set that was asked for, and only that set's annotations belong to it
+					from gambit.db.sqla import file_sessionmaker
+					from gambit.db.models import ReferenceGenomeSet
+					from gambit.sigs.base import load_signatures
+					session_ = file_sessionmaker(d / 'genomes.gdb')()
+					gset_ = session_.query(ReferenceGenomeSet).filter_by(key=w.gset['key']).one()
+					db = ReferenceDatabase(gset_, load_signatures(str(d / 'signatures.gs')))
+					ctx.count('databases_built_for_one_of_two_genome_sets')
+					foreign = [g.key for g in db.genomes if g.genome_set_id != gset_.id]
+					if foreign:
+						ctx.violation('genome-paired-with-foreign-signature', f'db.genomes holds annotations of ANOTHER genome set of the same file: {foreign[:4]}', desc)
+				else:
+					db = ReferenceDatabase.load_from_dir(d)
 			except Exception as e:
-				ctx.violation('valid-database-refused', f'load_from_dir raised {type(e).__name__}: {e}', desc)
+				ctx.violation('valid-database-refused', f'{"ReferenceDatabase(genome set, signatures)" if two_sets else "load_from_dir"} raised {type(e).__name__}: {e}', desc)
 				if restore:
 					w.genomes[restore[0]][id_attr], w.genomes[restore[2]][id_attr] = restore[1], restore[3]
 				continue
@@ -486,7 +501,7 @@ def finalize(merged, tier, seed, inconclusive):
 	c = merged['counters']
 	need = [f'id_attr:{a}' for a in ID_ATTRS] + ['order:random', 'order:reversed', 'with_unrelated_signatures', 'negative:dropped-signature', 'negative:renamed-id',
 	        'negative:id_attr-none', 'negative:id_attr-attribute-absent', 'negative:id_attr-misspelt', 'negative:null-id-column', 'negative:ids-of-wrong-kind', 'negative:dir:two-gdb', 'negative:dir:no-signature-file',
-	        'directory_ok:db+h5', 'cli_commands', 'big_databases', 'interleaved_queries_on_one_database', 'negative:near-miss-id', 'look_alike_identifier_pairs']
+	        'directory_ok:db+h5', 'cli_commands', 'big_databases', 'interleaved_queries_on_one_database', 'negative:near-miss-id', 'look_alike_identifier_pairs', 'databases_built_for_one_of_two_genome_sets']
 	for n in need:
 		if c.get(n, 0) == 0:
 			inconclusive.append(f'class never observed: {n}')
